@@ -47,6 +47,28 @@ def gen_cases(rng, n_quad, n_noisy):
     return cases
 
 
+def gen_signed_wide_cases(rng, n_quad, n_noisy):
+    """the sample family of `F.gen_sample_signed_wide` (negated losses / mixed-sign scores over 3-8 orders of
+    magnitude with near-ties of 1-4 ulps among the large-magnitude observations), with and without limits, with the
+    usual constraint menu; a stream of its own, so that the cases of `gen_cases` stay what they were per seed"""
+    cases = []
+    for cls, k in (("quad", n_quad), ("noisy", n_noisy)):
+        made = 0
+        while made < k:
+            ys, dtype, tags = F.gen_sample_signed_wide(rng)
+            lo, hi = F.gen_limits(rng, ys) if rng.random() < 0.6 else (-INF, INF)
+            if F.data_anchor(ys, lo, hi) is None:
+                continue
+            cons = (F.gen_constraints(rng, cls, ys, lo, hi, light_c=(cls == "noisy"), allow_f8=False)
+                    if rng.random() < 0.5 else
+                    ({"c": ["i", 1, 2]} if cls == "noisy" else {}))
+            case = F.make_case(cls, ys, dtype, lo, hi, cons)
+            case["family"] = dict(tags, name="signed_wide")
+            cases.append(case)
+            made += 1
+    return cases
+
+
 def side_flags(case, out, sp, b):
     """explicit predicates on the failing input (rounded values, as `np.unique` sees them): the hypotheses of
     the theorem `buckets_model_eq_spec` one by one"""
@@ -132,6 +154,11 @@ def run(seed, tier, replay=None):
         tasks = [dict(case=c, mode="stub", policy=gen_policy(rng, c), n_theta=3, seed=i, gen_seed=i)
                  for i, c in enumerate(cases)]
         real_tasks = gen_real_tasks(rng, 6 if tier == "quick" else 40, 2 if tier == "quick" else 10)
+        rng_w = C.rng_for("C10/signed-wide", seed)
+        wide = gen_signed_wide_cases(rng_w, *((90, 24) if tier == "quick" else (900, 240)))
+        tasks += [dict(case=c, mode="stub", policy=gen_policy(rng_w, c), n_theta=3, seed=len(cases) + i, gen_seed=len(cases) + i)
+                  for i, c in enumerate(wide)]
+        cases += wide
     outs = F.run_pool(tasks + real_tasks)
     real_outs = outs[len(tasks):]
     outs = outs[:len(tasks)]
@@ -146,6 +173,17 @@ def run(seed, tier, replay=None):
         rep.count("class=" + case["cls"])
         rep.count("dtype=" + case["dtype"])
         s = out["summary"]
+        fam = case.get("family")
+        if fam is not None:
+            lim = "none" if s["n_lower"] == 0 and s["n_upper"] == 0 else "censoring"
+            rep.count(f"family={fam['name']}")
+            rep.count(f"family={fam['name']}:sign={fam['sign']}")
+            rep.count(f"family={fam['name']}:orders_of_magnitude={fam['orders']}")
+            rep.count(f"family={fam['name']}:dtype={case['dtype']}:limits={lim}")
+            for u in fam["near_tie_ulps"]:
+                rep.count(f"family={fam['name']}:near_tie_ulps={u}")
+            if "decimals" in out:
+                rep.count(f"family={fam['name']}:documented_decimals={out['decimals']}")
         rep.count("limits=" + ("none" if s["n_lower"] == 0 and s["n_upper"] == 0 else "left" if s["n_upper"] == 0
                                else "right" if s["n_lower"] == 0 else "both"))
         for k in ("a", "b", "c", "o", "convex"):
@@ -250,6 +288,8 @@ def run(seed, tier, replay=None):
                     rep.skip("library_cdf_not_monotone_across_bucket_edges")
                     continue
                 rep.case(("objective", ci, pi, j), sample=dict(op="objective", case=case, theta=th, code=fc, model=fm, spec=fs))
+                if case.get("family") is not None:
+                    rep.count(f"family={case['family']['name']}:objective_values_judged")
                 fa = sp["f_spec_alt"][j]
                 ok_spec = F.rel_close(fc, fs) or (fa is not None and F.rel_close(fc, fa))
                 ok_model = fm is not None and F.rel_close(fc, fm)
@@ -343,7 +383,10 @@ def run(seed, tier, replay=None):
     real_checks(col, rep, real_tasks, real_outs)
     col.flush()
     return rep.result(
-        rule="stubbed-optimiser calls (one per generated (class, sample, limits, constraints)); a case is one comparison: "
+        rule="stubbed-optimiser calls (one per generated (class, sample, limits, constraints)); besides the samples in [0,1] / "
+             "[-2,1] / scaled, a family of negated losses and mixed-sign scores (|min| >> max, magnitudes over 3-8 orders, "
+             "near-ties of 1-4 ulps among the large-magnitude observations, float64 / float32, with and without limits; the "
+             "rounding is the documented one: 3 digits fewer than the largest spacing over the observed values); a case is one comparison: "
              "bounds / integrality / initial population per optimiser call, one objective value per probe point "
              "(random theta in the captured box + one initial candidate + the returned point), one returned object per call; "
              "distinct = distinct by (call index, pass, probe). Real fits: objective at the returned parameters vs at the "
